@@ -1,13 +1,70 @@
-// Transport family (TCP, UDP, ICMP, ICMPv6, ICMP extensions) — modelled so far: UDP
+// Transport family: UDP, TCP (+options)
+// Field names, order and value formats are those of lean/TinsModel/Wire/Transport/{Udp,Tcp}.lean `fields`.
 #pragma once
 #include "wire_iface.h"
 namespace wire {
+
+inline unsigned long long tr_num(const std::string& s) { return std::stoull(s); }
+inline bool tr_hex(const std::string& s, bytes& b) { return vh::parse_hex(s, b); }
+
+// typed option getters of TCP: value, "nf" (option_not_found) or "malformed_option"
+template <typename F>
+inline std::string tcp_typed(F f) {
+    try {
+        return f();
+    } catch (const option_not_found&) {
+        return "nf";
+    } catch (const malformed_option&) {
+        return "malformed_option";
+    }
+}
+
+inline std::string tcp_opts(const TCP& t) {
+    std::string s;
+    for (TCP::options_type::const_iterator it = t.options().begin(); it != t.options().end(); ++it) {
+        if (!s.empty()) s += ",";
+        std::ostringstream o;
+        o << unsigned(it->option()) << ":" << it->length_field() << ":" << vh::to_hex(it->data_ptr(), it->data_size());
+        s += o.str();
+    }
+    return s.empty() ? "-" : s;
+}
+
+inline std::string tcp_flag_bits(const TCP& t) {
+    static const TCP::Flags fl[8] = {TCP::FIN, TCP::SYN, TCP::RST, TCP::PSH, TCP::ACK, TCP::URG, TCP::ECE, TCP::CWR};
+    std::string s;
+    for (int i = 0; i < 8; ++i) s += (t.get_flag(fl[i]) ? '1' : '0');
+    return s;
+}
 
 inline bool transport_dump(const PDU& p, std::string& out) {
     if (p.pdu_type() == PDU::UDP) {
         const UDP& u = static_cast<const UDP&>(p);
         out = FieldDump().num("sport", u.sport()).num("dport", u.dport()).num("~length", u.length())
                   .num("~checksum", u.checksum()).done();
+        return true;
+    }
+    if (p.pdu_type() == PDU::TCP) {
+        const TCP& t = static_cast<const TCP&>(p);
+        out = FieldDump().num("sport", t.sport()).num("dport", t.dport()).num("seq", t.seq()).num("ack_seq", t.ack_seq())
+                  .num("window", t.window()).num("~checksum", t.checksum()).num("urg_ptr", t.urg_ptr())
+                  .num("~data_offset", t.data_offset()).num("flags", t.flags()).str("flag_bits", tcp_flag_bits(t))
+                  .str("opts", tcp_opts(t))
+                  .str("mss", tcp_typed([&] { return std::to_string(t.mss()); }))
+                  .str("winscale", tcp_typed([&] { return std::to_string(unsigned(t.winscale())); }))
+                  .num("sack_permitted", t.has_sack_permitted() ? 1 : 0)
+                  .str("sack", tcp_typed([&] {
+                      TCP::sack_type v = t.sack();
+                      std::string s;
+                      for (size_t i = 0; i < v.size(); ++i) { if (i) s += "."; s += std::to_string(v[i]); }
+                      return s.empty() ? std::string("-") : s;
+                  }))
+                  .str("timestamp", tcp_typed([&] {
+                      std::pair<uint32_t, uint32_t> v = t.timestamp();
+                      return std::to_string(v.first) + "." + std::to_string(v.second);
+                  }))
+                  .str("altchecksum", tcp_typed([&] { return std::to_string(unsigned(t.altchecksum())); }))
+                  .done();
         return true;
     }
     return false;
@@ -18,7 +75,66 @@ inline PDU* transport_mk(const std::string& cls, const std::vector<std::string>&
         if (a.size() == 2) return new UDP(uint16_t(std::stoul(a[0])), uint16_t(std::stoul(a[1])));
         return new UDP();
     }
+    if (cls == "TCP") {
+        if (a.size() == 2) return new TCP(uint16_t(std::stoul(a[0])), uint16_t(std::stoul(a[1])));
+        return new TCP();
+    }
     return 0;
+}
+
+inline bool tcp_apply(TCP& t, const std::vector<std::string>& op) {
+    size_t n = op.size();
+    if (n == 1 && op[0] == "sack_permitted") { t.sack_permitted(); return true; }
+    if (n == 2 && op[0] == "sack") {                       // a.b.c… (decimal 32-bit edges) or "-" for none
+        TCP::sack_type v;
+        if (op[1] != "-") {
+            std::istringstream is(op[1]);
+            std::string item;
+            while (std::getline(is, item, '.')) v.push_back(uint32_t(tr_num(item)));
+        }
+        t.sack(v);
+        return true;
+    }
+    if (n == 3 && op[0] == "timestamp") { t.timestamp(uint32_t(tr_num(op[1])), uint32_t(tr_num(op[2]))); return true; }
+    if (n == 3 && op[0] == "set_flag") { t.set_flag(TCP::Flags(tr_num(op[1])), uint8_t(tr_num(op[2]) & 1)); return true; }
+    if (n == 3 && op[0] == "add_option") {                 // option(kind, begin, end): length field = data size
+        bytes b;
+        if (!tr_hex(op[2], b)) return false;
+        t.add_option(TCP::option(uint8_t(tr_num(op[1])), b.begin(), b.end()));
+        return true;
+    }
+    if (n == 3 && op[0] == "add_option_copy") {            // the add_option(const option&) overload
+        bytes b;
+        if (!tr_hex(op[2], b)) return false;
+        const TCP::option o(uint8_t(tr_num(op[1])), b.begin(), b.end());
+        t.add_option(o);
+        return true;
+    }
+    if (n == 3 && op[0] == "add_option_nodata") {          // option(kind, length) without data pointer
+        t.add_option(TCP::option(uint8_t(tr_num(op[1])), size_t(tr_num(op[2]))));
+        return true;
+    }
+    if (n == 4 && op[0] == "add_option_len") {             // option(kind, length, begin, end): spoofed length field
+        bytes b;
+        if (!tr_hex(op[3], b)) return false;
+        t.add_option(TCP::option(uint8_t(tr_num(op[1])), uint16_t(tr_num(op[2])), b.begin(), b.end()));
+        return true;
+    }
+    if (n != 2) return false;
+    unsigned long long v = tr_num(op[1]);
+    if (op[0] == "sport") { t.sport(uint16_t(v)); return true; }
+    if (op[0] == "dport") { t.dport(uint16_t(v)); return true; }
+    if (op[0] == "seq") { t.seq(uint32_t(v)); return true; }
+    if (op[0] == "ack_seq") { t.ack_seq(uint32_t(v)); return true; }
+    if (op[0] == "window") { t.window(uint16_t(v)); return true; }
+    if (op[0] == "urg_ptr") { t.urg_ptr(uint16_t(v)); return true; }
+    if (op[0] == "data_offset") { t.data_offset(uint8_t(v & 15)); return true; }
+    if (op[0] == "flags") { t.flags(uint16_t(v & 0xfff)); return true; }
+    if (op[0] == "mss") { t.mss(uint16_t(v)); return true; }
+    if (op[0] == "winscale") { t.winscale(uint8_t(v)); return true; }
+    if (op[0] == "altchecksum") { t.altchecksum(TCP::AltChecksums(uint8_t(v))); return true; }
+    if (op[0] == "remove_option") { t.remove_option(TCP::OptionTypes(uint8_t(v))); return true; }
+    return false;
 }
 
 inline bool transport_apply(PDU& p, const std::vector<std::string>& op) {
@@ -28,9 +144,36 @@ inline bool transport_apply(PDU& p, const std::vector<std::string>& op) {
         if (op[0] == "dport") { u.dport(uint16_t(std::stoul(op[1]))); return true; }
         if (op[0] == "length") { u.length(uint16_t(std::stoul(op[1]))); return true; }
     }
+    if (p.pdu_type() == PDU::TCP) return tcp_apply(static_cast<TCP&>(p), op);
     return false;
 }
 
-inline bool transport_sweep(const PDU&, std::string&) { return false; }
+// read-only accessors that can fail: typed getters on every packet (option present or not, well-formed or not), every
+// converter the typed getters use on every option present, search_option for every kind
+inline bool transport_sweep(const PDU& p, std::string& out) {
+    if (p.pdu_type() != PDU::TCP) return false;
+    const TCP& t = static_cast<const TCP&>(p);
+    sweep_item(out, "mss", [&] { t.mss(); });
+    sweep_item(out, "winscale", [&] { t.winscale(); });
+    sweep_item(out, "has_sack_permitted", [&] { t.has_sack_permitted(); });
+    sweep_item(out, "sack", [&] { t.sack(); });
+    sweep_item(out, "timestamp", [&] { t.timestamp(); });
+    sweep_item(out, "altchecksum", [&] { t.altchecksum(); });
+    sweep_item(out, "has_flags", [&] { t.has_flags(0xfff); });
+    sweep_item(out, "search_option", [&] {
+        for (unsigned k = 0; k < 256; ++k) {
+            const TCP::option* o = t.search_option(TCP::OptionTypes(k));
+            if (o && o->option() != k) throw std::logic_error("search_option returned another kind");
+        }
+    });
+    for (TCP::options_type::const_iterator it = t.options().begin(); it != t.options().end(); ++it) {
+        sweep_item(out, "opt.to_u8", [&] { it->to<uint8_t>(); });
+        sweep_item(out, "opt.to_u16", [&] { it->to<uint16_t>(); });
+        sweep_item(out, "opt.to_u32", [&] { it->to<uint32_t>(); });
+        sweep_item(out, "opt.to_sack", [&] { it->to<TCP::sack_type>(); });
+        sweep_item(out, "opt.to_pair32", [&] { it->to<std::pair<uint32_t, uint32_t> >(); });
+    }
+    return true;
+}
 
 } // namespace wire
